@@ -180,7 +180,17 @@ func (e *Exec) step(fr *frame, st *State, instr ssa.Instruction) {
 		if !p.IsValid() {
 			p = in.Addr.Pos()
 		}
+		var oldV Val
+		al, isAl := in.Addr.(*ssa.Alloc)
+		if isAl && fr == e.topFrame && fr.spec != nil && len(fr.spec.GhostSets) > 0 {
+			oldV = st.cells[al]
+		}
 		e.storePtr(fr, st, addr, pt, v, p)
+		if isAl && fr == e.topFrame && fr.spec != nil && len(fr.spec.GhostSets) > 0 {
+			if nv, ok := st.cells[al]; ok {
+				e.ghostOnStore(fr, st, al, oldV, nv, in.Block())
+			}
+		}
 	case *ssa.UnOp:
 		e.stepUnOp(fr, st, in)
 	case *ssa.BinOp:
@@ -541,6 +551,12 @@ func (e *Exec) stepSlice(fr *frame, st *State, in *ssa.Slice) {
 			hs := arraySort(sInt, arraySort(sInt, e.ctx.sortOf(u.Elem())))
 			e.ctx.assume(fmt.Sprintf("(forall ((H %s) (j Int)) (! (= %s %s) :pattern (%s)))", hs,
 				e.elemAt("H", u.Elem(), rc, "j"), e.elemAt("H", u.Elem(), x.T, "(+ "+lo+" j)"), e.elemAt("H", u.Elem(), rc, "j")))
+			if e.uses("SUBSLICE-REV") {
+				// ... and the other way round (opt-in: needed when a callee's contract
+				// speaks about the sub-slice and the caller about the whole slice)
+				e.ctx.assume(fmt.Sprintf("(forall ((H %s) (j Int)) (! (= %s %s) :pattern (%s)))", hs,
+					e.elemAt("H", u.Elem(), x.T, "j"), e.elemAt("H", u.Elem(), rc, "(- j "+lo+")"), e.elemAt("H", u.Elem(), x.T, "j")))
+			}
 		}
 		e.set(fr, in, Val{T: res, S: sSlice})
 	case *types.Basic: // string
